@@ -10,6 +10,9 @@
 //        S<e>   let executor e run exactly one phase (start, one evaluation cycle, or stop) and wait until it has finished it
 //        F      release every executor to run freely and concurrently to the end
 //        W<e>   wait until executor e has finished its run
+//        H<p>   on a helper thread: open a GlobalContext, wire program p inside it, run it to the end, copy its global state back
+//               into that context and KEEP the context open (on that thread) until the end of the history; returns when the
+//               helper has reached that point.  What other threads build and run meanwhile must not see that context.
 //        G      open a GlobalContext on the main thread: the builders wired from here on take its state as their seed,
 //               and every executor copies its graph's global state back into it when its run is over (what the library's
 //               own testing harness does) - only used in histories whose runs follow one another
@@ -73,13 +76,56 @@ int main()
             std::vector<std::pair<int, std::optional<GraphBuilder>>> builders;   // (program index, builder)
             std::vector<std::unique_ptr<Exec>>                     execs;
             std::unique_ptr<GlobalContext>                         ctx;
+            // helper threads holding an open context (token H)
+            std::mutex                hm;
+            std::condition_variable   hcv;
+            bool                      helpers_release = false;
+            int                       helpers_ready   = 0;
+            std::vector<std::thread>  helpers;
+            std::vector<std::string>  helper_out;
             try
             {
                 for (auto &tok : hist)
                 {
                     const char op  = tok[0];
                     const int  arg = tok.size() > 1 ? std::stoi(tok.substr(1)) : 0;
-                    if (op == 'G')
+                    if (op == 'H')
+                    {
+                        Scenario *scn = progs.at(arg)->scn.get();
+                        const int want = ++helpers_ready;   // only read under hm below
+                        helpers_ready  = want - 1;
+                        helper_out.emplace_back();
+                        std::string *out = &helper_out.back();
+                        helpers.emplace_back([&, scn, out] {
+                            try
+                            {
+                                GlobalContext held;
+                                auto          gb = wire_scenario(*scn);
+                                if (gb)
+                                {
+                                    g_after_run = [&held](const GraphView &graph) { held.state().view().copy_from(graph.global_state()); };
+                                    execute_builder(*scn, *gb);
+                                }
+                                *out = std::move(trace().buf);
+                                trace().buf.clear();
+                                std::unique_lock lk(hm);
+                                ++helpers_ready;
+                                hcv.notify_all();
+                                hcv.wait(lk, [&] { return helpers_release; });
+                            }
+                            catch (const std::exception &ex)
+                            {
+                                std::unique_lock lk(hm);
+                                *out += std::string{"{\"e\":\"harnessfail\",\"msg\":\"helper: "} + ex.what() + "\"}\n";
+                                ++helpers_ready;
+                                hcv.notify_all();
+                            }
+                        });
+                        std::unique_lock lk(hm);
+                        hcv.wait(lk, [&] { return helpers_ready >= want; });
+                        J("helper").i("p", arg).emit();
+                    }
+                    else if (op == 'G')
                     {
                         ctx = std::make_unique<GlobalContext>();
                         J("context").emit();
@@ -183,6 +229,16 @@ int main()
                 e->gate.cv.notify_all();
             }
             for (auto &e : execs) { e->th.join(); }
+            {
+                std::lock_guard lk(hm);
+                helpers_release = true;
+            }
+            hcv.notify_all();
+            for (auto &h : helpers) { h.join(); }
+            for (auto &o : helper_out)
+            {
+                if (o.find("harnessfail") != std::string::npos) { J("harnessfail").str("msg", "helper thread failed").emit(); }
+            }
             for (size_t i = 0; i < execs.size(); ++i)
             {
                 J("exec").i("x", static_cast<long>(i)).i("b", execs[i]->builder).i("p", builders.at(execs[i]->builder).first).emit();
